@@ -212,7 +212,16 @@ where
             Value::Boolean(b) => write!(self.w, "{}", if b.val { "true" } else { "false" })?,
             Value::Empty(_) => write!(self.w, "NULL")?,
             // TODO(jwall): We should maintain precision for floats?
-            Value::Float(f) => write!(self.w, "{}", f.val)?,
+            Value::Float(f) => {
+                // A float literal needs its decimal point. Without it 1.0
+                // comes back as the integer 1.
+                let repr = format!("{}", f.val);
+                if repr.contains('.') {
+                    write!(self.w, "{}", repr)?
+                } else {
+                    write!(self.w, "{}.0", repr)?
+                }
+            }
             Value::Int(i) => write!(self.w, "{}", i.val)?,
             Value::Str(s) => write!(self.w, "\"{}\"", Self::escape_quotes(&s.val))?,
             Value::Symbol(s) => write!(self.w, "{}", s.val)?,
